@@ -36,6 +36,7 @@ const (
 var (
 	quoted                bool
 	isAppArmorLogTemplate = regexp.MustCompile(`apparmor=("DENIED"|"ALLOWED"|"AUDIT")`)
+	regRepeatedMsg        = regexp.MustCompile(`message repeated [0-9]+ times: \[ .*\]$`)
 	regCleanLogs          = util.ToRegexRepl([]string{
 		// Clean apparmor log file
 		`^.*?apparmor="`, `apparmor="`, // The record header only: a value may end in apparmor= too
